@@ -347,6 +347,32 @@ def c3({inner}): return 0
 @specifiers.forwards_to_function(c3)
 def c1({outer}*args, **kwargs): return c3(*args, **kwargs)
 ''', 'c1', ['c1', 'c3']),
+    ('modifiers-method', '''
+from sigtools import modifiers
+def c3({inner}): return 0
+class K(object):
+    @modifiers.kwoargs('o')
+    def c1(self, o, *args, **kwargs): return c3(*args, **kwargs)
+obj = K()
+''', 'obj.c1', None),
+    ('annotate-method', '''
+from sigtools import modifiers
+def c3({inner}): return 0
+class K(object):
+    @modifiers.annotate(o=int)
+    def c1(self, o, *args, **kwargs): return c3(*args, **kwargs)
+    @modifiers.kwoargs('o')
+    def __call__(self, o, *args, **kwargs): return c3(*args, **kwargs)
+obj = K()
+''', 'obj.c1', None),
+    ('modifiers-call', '''
+from sigtools import modifiers
+def c3({inner}): return 0
+class K(object):
+    @modifiers.kwoargs('o')
+    def __call__(self, o, *args, **kwargs): return c3(*args, **kwargs)
+obj = K()
+''', 'obj', None),
     ('closure-factory', '''
 def c3({inner}): return 0
 def c2(q=None): return 0
@@ -456,7 +482,7 @@ def check_retrieval(tname, inner, mid, outer, stats):
                 c3 = g['c3']
                 if c3 in depths and depths[c3] != 1:
                     stats.fail('C08/retrieval/min-depth', dict(case, via=label), '%s: c3 is reachable at depth 1 and 2, recorded depth %d' % (desc, depths[c3]))
-            if tname.startswith('modifiers'):
+            if tname.startswith('modifiers') and hasattr(obj, 'func') and not tname.endswith(('-method', '-call')):
                 raw = obj.func
                 listed = set()
                 for n in sig.parameters:
